@@ -304,8 +304,9 @@ def r6_floats(text, log, base_line, item_name, extra_float_vars=()):
         before = text
         # methods first (highest precedence)
         ATOM_M = r'(?:%s|(?<![\w.])(?:%s)\b|%s)' % (FCALL, fv, CALL)
-        m = re.search(r'(%s)\s*\.\s*(min|max|powf)\s*(%s)' % (ATOM_M, CALL), text)
-        if m and is_float_atom(m.group(1)):
+        # the first method call on a FLOAT atom (integer `.min(..)` / `.max(..)` calls earlier in the text are skipped)
+        m = next((mm for mm in re.finditer(r'(%s)\s*\.\s*(min|max|powf)\s*(%s)' % (ATOM_M, CALL), text) if is_float_atom(mm.group(1))), None)
+        if m:
             arg = m.group(3)[1:-1]
             text = text[:m.start()] + 'f%s(%s, %s)' % (m.group(2), _unparen(m.group(1)), arg.strip()) + text[m.end():]
             continue
@@ -469,6 +470,56 @@ def r4_option_combinators(text, log, base_line, item_name):
         new = '(match %s { Some(%s) => %s, None => %s })' % (recv, pat, body, default)
         log.append(dict(rule='R4o.' + kind, line=base_line + text.count('\n', 0, start), old=_short(text[start:cl + 1]), new=_short(new), item=item_name))
         # keep the line structure
+        nl = text.count('\n', start, cl + 1)
+        text = text[:start] + new + '\n' * nl + text[cl + 1:]
+    return text
+
+
+def inline_helper_calls(text, name, params, body, has_self, log, base_line, item_name):
+    """R4h (second form): calls of a single-expression helper whose body cannot serve as a specification are replaced by the
+    body itself, parameters bound by `let` (arguments are still evaluated exactly once, in order): `Self::h(a, b)` / `h(a, b)`
+    -> `({ let p1 = a; let p2 = b; BODY })`;  `recv.h(a)` -> `({ let __h_self = &recv; let p1 = a; BODY[self := __h_self] })`."""
+    from . import rustsrc
+    for _round in range(40):
+        m = None
+        for mm in re.finditer(r'(?:\bSelf\s*::\s*|\.\s*)?\b%s\s*\(' % re.escape(name), text):
+            pre = text[max(0, mm.start() - 4):mm.start()]
+            if re.search(r'fn\s*$', pre):
+                continue
+            m = mm
+            break
+        if not m:
+            break
+        op = m.end() - 1
+        cl = rustsrc.match_close(text, op)
+        args, depth, cur = [], 0, ''
+        for ch in text[op + 1:cl]:
+            if ch in '([{':
+                depth += 1
+            elif ch in ')]}':
+                depth -= 1
+            if ch == ',' and depth == 0:
+                args.append(cur.strip())
+                cur = ''
+            else:
+                cur += ch
+        if cur.strip():
+            args.append(cur.strip())
+        is_method = m.group(0).lstrip().startswith('.')
+        if is_method != has_self or len(args) != len(params):
+            raise UnsupportedConstruct('call of helper %s does not match its signature' % name)
+        start = m.start()
+        lets = ''
+        b = body
+        if is_method:
+            start = _receiver_start(text, m.start())
+            recv = text[start:m.start()].strip()
+            lets += 'let __h_self = &(%s); ' % recv
+            b = re.sub(r'\bself\b', '__h_self', b)
+        for pn, a in zip(params, args):
+            lets += 'let %s = %s; ' % (pn, a)
+        new = '({ ' + lets + b + ' })'
+        log.append(dict(rule='R4h.inline:' + name, line=base_line + text.count('\n', 0, start), old=_short(text[start:cl + 1]), new=_short(new), item=item_name))
         nl = text.count('\n', start, cl + 1)
         text = text[:start] + new + '\n' * nl + text[cl + 1:]
     return text
